@@ -527,6 +527,13 @@ def random_recv_script(rng, consts):
                 d[t] = 3 - d[t] if t in d else rng.choice([1, 2])
     if scen != "keysend" and rng.random() < (0.5 if regmeta else 0.05):
         parts[rng.randrange(len(parts))]["meta"] = rng.choice(["none", "flip"])
+    # (the trace spec ties an arriving HTLC to what its sender put into the onion by hash and amount: parts that
+    # differ in anything else get different amounts)
+    seen_amts = set()
+    for p in parts:
+        while p["amt"] in seen_amts:
+            p["amt"] += 1000
+        seen_amts.add(p["amt"])
     rng.shuffle(parts) if rng.random() < 0.3 else None
     pid = 0
     for i, p in enumerate(parts):
